@@ -345,13 +345,13 @@ def run_headscache(ck, prop, tier, n_sim):
 # ---------------------------------------------------------------------------
 # C19: replication status
 
-def st_cfg(name, spec, l, r, elseif, invs='RestOK SingleWriterCount ProgLeMax', props='Monotone'):
+def st_cfg(name, spec, l, r, elseif, invs='RestOK SingleWriterCount ProgLeMax', props='Monotone', atomic=True):
     return (name, '''SPECIFICATION %s
-CONSTANTS L = %d  R = %d  ElseIf = %s
+CONSTANTS L = %d  R = %d  ElseIf = %s  AtomicRecalc = %s
 INVARIANTS %s
 %s
 CHECK_DEADLOCK FALSE
-''' % (spec, l, r, 'TRUE' if elseif else 'FALSE', invs, ('PROPERTIES ' + props) if props else ''))
+''' % (spec, l, r, 'TRUE' if elseif else 'FALSE', 'TRUE' if atomic else 'FALSE', invs, ('PROPERTIES ' + props) if props else ''))
 
 
 def c19(prop, tier):
@@ -370,21 +370,37 @@ def c19(prop, tier):
         bs.append({'id': 'elseif-counterexample', 'steps': m['trace']})
     else:
         ck.inconclusive.append('mutant specification (else-if) not refuted by TLC: vacuity guard failed')
+    m2 = vlib.tlc_check('SimStatus.tla', st_cfg('Status.mutant2.cfg', 'SimSpec', 3, 1, False, invs='ProgLeMax', atomic=False), 'C19-mutant2')
+    ck.add_tlc(m2, 'Status with recalculations that read and set in two steps (mutant specification)')
+    if m2.get('violated') in ('Monotone', 'ProgLeMax') and m2.get('trace'):
+        bs.append({'id': 'two-step-recalc-counterexample', 'steps': m2['trace'], 'r': 1})
+    else:
+        ck.inconclusive.append('mutant specification (two-step recalculation) not refuted by TLC: vacuity guard failed')
     sims, _ = vlib.tlc_simulate('SimStatus.tla', st_cfg('Status.sim.cfg', 'SimSpec', 4, 4, False, props=''), 'C19-sim', 400 if thorough else 14, 14, SEED)
     bs += sims
     for b in bs:
         for st in b['steps']:
-            st['action'] = {'SWrite': 'Write', 'SProgress': 'Progress', 'SJoinAll': 'JoinAll', 'SAnnounce': 'Announce'}.get(st['action'], st['action'])
+            st['action'] = {'SWrite': 'Write', 'SProgress': 'Progress', 'SJoinAll': 'JoinAll', 'SAnnounce': 'Announce', 'SAnnRead': 'AnnRead'}.get(st['action'], st['action'])
         acts = [s['action'] for s in b['steps']]
         if 'Announce' in acts and 'Write' in acts[acts.index('Announce'):]:
             ck.distinct.add(vlib.beh_signature(b))
+    short = [b for b in bs if b.get('r') == 1]
+    bs = [b for b in bs if b.get('r') != 1]
     inp = {'property': prop, 'seed': SEED, 'r': 4, 'behaviours': bs}
     res = vlib.run_vh('status', inp, tag='C19')
-    byid = {b['id']: b for b in bs}
+    if short:
+        # the counterexample of the two-step recalculation needs a remote chain of one entry
+        res1 = vlib.run_vh('status', dict(inp, r=1, behaviours=short), tag='C19-r1')
+        for k in ('behaviours', 'steps', 'comparisons'):
+            res[k] = res.get(k, 0) + res1.get(k, 0)
+        for k in ('violations', 'inconclusive', 'notes'):
+            res[k] = res.get(k, []) + res1.get(k, [])
+        res['stats']['drift'] = res['stats'].get('drift', 0) + res1.get('stats', {}).get('drift', 0)
+    byid = {b['id']: b for b in bs + short}
 
     def payload(v):
         b = byid.get(v['behaviour'])
-        return {'command': 'status', 'input': dict(inp, behaviours=[b] if b else []), 'violation': v}
+        return {'command': 'status', 'input': dict(inp, r=b.get('r', 4) if b else 4, behaviours=[b] if b else []), 'violation': v}
     ck.add_harness(res, payload, 'status replay')
     if not res.get('inconclusive'):
         ck.traces_validated += res.get('behaviours', 0)
